@@ -7,6 +7,7 @@ import random
 import shutil
 import tempfile
 
+import loopcount
 import runcheck
 import runoracle
 import s_ctor
@@ -19,10 +20,19 @@ RULE = ("scenarios from the grammar in harness/scen.py (15 % with infeasible tri
         "charging station); every run ends with report generation "
         "(`testing` aggregates; one run in four also writes the results JSON, the time series CSV per connector and the "
         "SoC CSV, whose row counts must equal the number of reported steps); watchdog per run; "
+        "in every flex_window / schedule run the iterations of every entry of every inner `while` loop are counted "
+        "(harness/loopcount.py: sys.monitoring line events on the loops found with ast in the imported module, no "
+        "source edit) and compared with the loop's proved bound computed from the step's inputs; "
         "non-trivial = the run reported at least one step; distinct = distinct (seed, index, strategy)")
 ASSUMPTIONS = ["'bounded time' is judged by a 90 s watchdog per run (wall-clock is not a theorem)"]
 UNPROVED = ["termination of the strategies' internal while-loops is proved per loop on the strategy models (fuel theorems "
             "C17_<strategy>_*); the wall-clock sentence itself is observed by the watchdog",
+            "flex_window / schedule: that the REAL loops stay within the proved iteration bounds is observed per loop entry "
+            "(keys C17:loop_iterations_exceed_bound:<strategy>:<function>:<n-th while>; bisections: least n with "
+            "W <= EPS*2^n plus 2 for IEEE midpoint rounding; event peeks: future events + 1; look-ahead: "
+            "ceil((departure - now)/interval); end-of-window scan: 8*1440 (repair H4); collective retry queue: "
+            "(n+1)((nM+1)A+nM)+n+1, astronomically large - observed maxima are in the evidence as loop_max_iterations:*); "
+            "regressions of the repaired hangs H4 / PLW4 / BM3 are corpus/C17 cases",
             "report generation (report.py) is exercised, not modelled here (C18 models its content)"]
 compare = runcheck.compare
 
@@ -62,6 +72,14 @@ def data_fault(full, rng):
     return "fixed_load_named_like_station"
 
 
+STEP_TIE = os.environ.get("VERIF_C17_NO_STEP_TIE") != "1"     # development switch: judge by the oracle clauses alone
+
+
+def loop_counted(case, full):
+    """which runs carry the loop-iteration counter (derived from the case only): all runs of the two strategies"""
+    return full.get("strategy") in loopcount.STRATEGIES
+
+
 def eval_case(case):
     if case.get("ctor"):
         return s_ctor.eval_case(case)
@@ -80,7 +98,12 @@ def eval_case(case):
         run["options"].update(save_results=os.path.join(tmp, "res.json"), save_timeseries=os.path.join(tmp, "ts.csv"),
                               save_soc=os.path.join(tmp, "soc.csv"))
     try:
-        res = runcheck.eval_run(run, [runoracle.check_c17])
+        # loop-iteration oracle (harness/loopcount.py): every entry of every inner `while` of flex_window / schedule
+        with loopcount.counting(full["strategy"], enabled=loop_counted(case, full)) as loops:
+            res = runcheck.eval_run(run, [runoracle.check_c17], step_tie=STEP_TIE)
+        res["violations"] += loops.violations
+        res["stats"] = res.get("stats", []) + loops.stats
+        res.setdefault("num", {}).update(loops.num)
         if tmp and res["sample"].get("reported_steps") is not None and not any(
                 k.startswith("C17:exception_escaped") or k.startswith("C17:run_did_not_terminate")
                 for _, k, _ in res["violations"]):
